@@ -260,10 +260,16 @@ def exhaustive(alphabet, maxlen):
 
 # ------------------------------------------------------------------ running
 def harness(ctx):
-    exe, log = ctx.cc('h_hex', [os.path.join(vlib.VERIF, 'harness/h_hex.c')], ['-I' + vlib.REPO + '/librfn'])
-    if not exe:
-        raise vlib.Infra('hex harness does not compile against the tree: ' + log[-1500:])
-    return exe
+    log = ''
+    for extra in ([], ['-DNO_HEXCHAR'], ['-DNO_NIBBLE'], ['-DNO_HEXCHAR', '-DNO_NIBBLE']):
+        exe, log = ctx.cc('h_hex', [os.path.join(vlib.VERIF, 'harness/h_hex.c')], ['-I' + vlib.REPO + '/librfn'] + extra)
+        if exe:
+            if extra:
+                msg = 'hex.c no longer defines the static helper(s) ' + ' '.join(e[5:].lower() for e in extra) + ': helper tables of the correspondence are skipped'
+                if msg not in ctx.broken:
+                    ctx.broken.append(msg)
+            return exe
+    raise vlib.Infra('hex harness does not compile against the tree: ' + log[-1500:])
 
 
 def run_impl(exe, ops, timeout=300):
